@@ -68,6 +68,11 @@ def gen_cases(tier, seed):
             rho = rng.uniform(0.01, 30)
         elif m == 2:
             z0, z1 = rng.uniform(max(zmin, -200), -0.01), rng.uniform(max(zmin, -200), -0.01)
+        r_ = rng.random()
+        if r_ < 0.04:
+            z1 = float(rng.choice([5.0, 0.5, zmin - 50.0]))       # one endpoint outside the ice: whatever is reported, exists <=> non-empty, in all executions
+        elif r_ < 0.10 and fam in ("uniform", "layered-uniform") and rho > 0:
+            z1 = z0                                               # exactly equal depths: a horizontal straight path
         ph = rng.uniform(0, 2 * np.pi)
         a = [float(rng.uniform(-2e3, 2e3)), float(rng.uniform(-2e3, 2e3)), float(z0)]
         b = [a[0] + float(rho * np.cos(ph)), a[1] + float(rho * np.sin(ph)), float(z1)]
@@ -249,7 +254,11 @@ def run_case(case):
     used = set()
     for j, p in enumerate(s1):
         cand = [(abs(q.path_length - p.path_length), i) for i, q in enumerate(s2) if i not in used]
-        _, i = min(cand)
+        best_dl = min(cand)[0]
+        # several solutions can have the same length (equal depths: up-first and down-first reflections): among those within
+        # the length tolerance take the one whose directions fit best
+        ties = [i for dl, i in cand if dl <= best_dl + 10 * gtol * max(float(p.path_length), 1e-9)]
+        i = min(ties, key=lambda i_: float(np.max(np.abs(np.asarray(p.emitted_direction) + np.asarray(s2[i_].received_direction)))))
         used.add(i)
         q = s2[i]
         L = float(p.path_length)
